@@ -59,8 +59,7 @@ API
     vt.snapshot(attrs=True, cursor=True)   hashable, comparable dump (glyph+style per cell,
                                 cursor, visibility)
     vt.text_rows()              list[str], one per row, glyphs of the active screen (trailing
-                                halves of wide chars skipped; garbage cells shown as U+FFFD... no:
-                                as '\\x00')
+                                halves of wide chars skipped; garbage cells show as '\\x00')
     vt.row_text(y), vt.dump()   helpers for messages
 
 Supported
@@ -96,8 +95,12 @@ Interpretation choices (all "disputed corners" are listed so checks can avoid th
 quirks
 ------
 `quirks` is a set of names; each switches the model to mimic ONE deviation observed in some
-implementation (see QUIRKS below for the list and meaning).  Unknown names raise ValueError at
-construction so that a typo cannot silently disable a classifier.
+implementation (see the QUIRKS dict below for the names and their exact meaning; several may be
+enabled together).  Unknown names raise ValueError at construction so that a typo cannot silently
+disable a classifier.  The names found while building C15 against urwid.vterm.TermCanvas are:
+pending-wrap-survives-cursor-motion, ed1-excludes-cursor-cell, width1-wrap-loses-pending,
+autowrap-below-region-scrolls-region, il-removes-line-above-bottom-margin, and the two
+interpretation switches il-dl-keep-column (xterm) and scrollback-saves-region-lines.
 
 Self-test: `python -m vmon.models.vt`
 """
@@ -154,9 +157,15 @@ DEC_GRAPHICS[0x5F] = " "
 # behaviour documented above (found by the C15 differential monitor).
 QUIRKS = {
     "pending-wrap-survives-cursor-motion": "the last-column flag is NOT cleared by CUP/HVP/CUx/CHA/VPA/CR/BS/"
-    "LF/erase/insert/delete; the next printable still wraps",
+    "LF/erase/insert/delete; the next printable still wraps if the cursor is (again) in the last column at that time, "
+    "otherwise the stale flag is dropped by that printable",
+    "autowrap-below-region-scrolls-region": "an autowrap while the cursor is BELOW the bottom margin scrolls the region "
+    "and keeps the row, instead of moving down one row",
+    "il-removes-line-above-bottom-margin": "IL n: n times (insert a blank line at the cursor row, then delete the line "
+    "that was just above the bottom margin instead of the bottom-margin line); at the bottom-margin row IL is a no-op",
     "ed1-el1-exclude-cursor-cell": "ED 1 and EL 1 erase up to but not including the cursor cell",
-    "ed1-excludes-cursor-cell": "ED 1 erases the cursor row only up to but not including the cursor cell",
+    "ed1-excludes-cursor-cell": "ED 1 erases the cursor row only up to but not including the cursor cell "
+    "(except in column 0, where the cursor cell is erased)",
     "el1-excludes-cursor-cell": "EL 1 erases up to but not including the cursor cell",
     "width1-no-wrap": "on a 1-column terminal printing overwrites column 0 and never wraps",
     "width1-wrap-loses-pending": "on a 1-column terminal a glyph printed right after an autowrap does not set the "
@@ -715,9 +724,14 @@ class VT:
         wrapped = False
         if self.pending_wrap:
             self.pending_wrap = False
-            if 7 in self.modes:
+            if self.x != cols - 1:
+                pass  # only reachable with pending-wrap-survives-cursor-motion: stale flag, dropped
+            elif 7 in self.modes:
                 self.x = 0
-                self._index()
+                if self.y > self.bottom and "autowrap-below-region-scrolls-region" in self.quirks:
+                    self._scroll_up(1)
+                else:
+                    self._index()
                 wrapped = True
         if w == 2:
             if cols < 2:
@@ -816,8 +830,10 @@ class VT:
             for y in range(self.y):
                 g[y] = [self._erase_cell()] * self.cols
             end = self.x + 1
-            if self.quirks and ("ed1-el1-exclude-cursor-cell" in self.quirks or "ed1-excludes-cursor-cell" in self.quirks):
+            if self.quirks and "ed1-el1-exclude-cursor-cell" in self.quirks:
                 end = self.x
+            elif self.quirks and "ed1-excludes-cursor-cell" in self.quirks:
+                end = self.x if self.x > 0 else 1
             self._erase_span(g[self.y], 0, end)
         elif mode == 2:
             for y in range(self.rows):
@@ -832,7 +848,13 @@ class VT:
     def _il(self, n):
         if not self.top <= self.y <= self.bottom:
             return
-        self._scroll_down(n, top=self.y, bottom=self.bottom, count=False)
+        if "il-removes-line-above-bottom-margin" in self.quirks:
+            g = self.cells
+            for _ in range(min(n, self.rows + 1)):
+                g.insert(self.y, [self._erase_cell()] * self.cols)
+                g.pop(self.bottom)
+        else:
+            self._scroll_down(n, top=self.y, bottom=self.bottom, count=False)
         self._clear_wrap()
         if "il-dl-keep-column" not in self.quirks:
             self.x = 0
@@ -1432,8 +1454,14 @@ def _selftest():
     ok(v.text_rows() == ["b", "c"], "1-column terminal scrolls")
     v = mk(b"ab", cols=1, rows=2, quirks={"width1-no-wrap"})
     ok(v.text_rows() == ["b", " "], "quirk width1-no-wrap")
-    v = mk(b"0123456789\x1b[1;1HX", quirks={"pending-wrap-survives-cursor-motion"})
-    ok(v.row_text(1)[0] == "X", "quirk pending-wrap-survives-cursor-motion")
+    v = mk(b"0123456789\x1b[1;10HX", quirks={"pending-wrap-survives-cursor-motion"})
+    ok(v.row_text(1)[0] == "X" and v.row_text(0) == "0123456789", "quirk pending-wrap-survives-cursor-motion")
+    v = mk(b"0123456789\x1b[1;1HXY", quirks={"pending-wrap-survives-cursor-motion"})
+    ok(v.row_text(0) == "XY23456789" and v.row_text(1)[0] == " ", "quirk pending-wrap: stale flag dropped away from the last column")
+    v = mk(b"a\r\nb\r\nc\r\nd\x1b[2;1H\x1b[L", quirks={"il-removes-line-above-bottom-margin"})
+    ok([r[0] for r in v.text_rows()] == ["a", " ", "b", "d"], "quirk il-removes-line-above-bottom-margin")
+    v = mk(b"\x1b[1;2r\x1b[3;10Hxy", cols=10, rows=4, quirks={"autowrap-below-region-scrolls-region"})
+    ok(v.cursor == (1, 2) and v.row_text(2)[0] == "y", "quirk autowrap-below-region-scrolls-region")
     v = mk(b"abcdefghij\x1b[1;4H\x1b[1K", quirks={"el1-excludes-cursor-cell"})
     ok(v.row_text(0) == "   defghij", "quirk el1-excludes-cursor-cell")
     try:
